@@ -135,7 +135,7 @@ impl Profile for EntryPointTwin {
                         (Doc::json(&doc_for(h, &args)), Some(Intent { hid: h.id(), args: Value::Object(args), cid: String::new() }))
                     };
                     ops.push(match kind {
-                        Kind::Exec => Op::Exec { target: c.addr.clone(), sender: rng.pick(accounts).clone(), msg, funds: vec![], intent },
+                        Kind::Exec => Op::Exec { target: c.addr.clone(), sender: rng.pick(accounts).clone(), msg, funds: if rng.chance(1, 3) { vec![sylvia::cw_std::Coin::new(rng.range(1, 30) as u128, "ucoin")] } else { vec![] }, intent },
                         Kind::Query => Op::Query { target: c.addr.clone(), msg, intent },
                         _ => Op::Sudo { target: c.addr.clone(), msg, intent },
                     });
